@@ -270,7 +270,7 @@ pub fn fullzip(_args: &hxlib::util::Args) -> i32 {
                 if nulls && !nullable {
                     continue;
                 }
-                for rows0 in [1usize, 5, 100] {
+                for rows0 in [1usize, 2, 3, 5, 100] {
                     for ty in ["i32", "f32", "i64", "fsb3"] {
                       for (pre, post) in [(0usize, 0usize), (0, 7), (3, 0), (3, 7)] {
                         if std::env::var("C25_SLICE").is_err() && (pre, post) != (0, 0) { continue; }
@@ -284,7 +284,10 @@ pub fn fullzip(_args: &hxlib::util::Args) -> i32 {
                         };
                         let col: ArrayRef = col.slice(pre, rows0);
                         let rows = rows0;
-                        let col: ArrayRef = if std::env::var("C25_ALLTRUE").is_ok() && !nulls && nullable {
+                        let col: ArrayRef = if std::env::var("C25_ALLTRUE").is_ok() && !nulls && ty == "i32" {
+                            // a validity bitmap that is present and all true (kept by PrimitiveArray::new)
+                            Arc::new(Int32Array::new((0..rows as i32).collect::<Vec<i32>>().into(), Some(arrow_buffer::NullBuffer::new_valid(rows))))
+                        } else if false {
                             // a validity bitmap that is present and all true
                             arrow_array::make_array(col.to_data().into_builder().nulls(Some(arrow_buffer::NullBuffer::new_valid(rows))).build().unwrap())
                         } else {
